@@ -1,5 +1,6 @@
 use crate::fw::{PropertyDef, Tier};
 
+pub mod checker;
 pub mod common;
 pub mod e2e;
 pub mod pgen;
@@ -10,14 +11,19 @@ pub mod numerics;
 pub mod algos;
 pub mod order;
 pub mod population;
+pub mod roundtrip;
 pub mod routing;
 pub mod scientific;
+pub mod validate;
 
 pub fn property(id: &str, tier: Tier) -> Option<PropertyDef> {
     match id {
         "C01" => Some(e2e::property("C01", tier)),
         "C02" => Some(e2e::property("C02", tier)),
         "C03" => Some(e2e::property("C03", tier)),
+        "C10" => Some(validate::property(tier)),
+        "C11" => Some(roundtrip::property(tier)),
+        "C12" => Some(checker::property(tier)),
         "C13" => Some(scientific::property(tier)),
         "C14" => Some(model::property(tier)),
         "C08" => Some(population::property(tier)),
